@@ -203,6 +203,25 @@ func (x *Exec) callExternal(fr *Frame, key string, sig *types.Signature, args []
 	case "reflect.ValueOf":
 		v := x.term(args[0], sig.Params().At(0).Type(), site)
 		return one(uf("rvalueOf", "(Val) RVal", SRVal, v.S), sig.Results().At(0).Type())
+	case "(reflect.Value).Elem":
+		v := x.term(args[0], sig.Recv().Type(), site)
+		x.safety(fr, "reflect-elem", "reflect.Value.Elem on the zero Value panics", pos, bc, T(SBool, app("rvValid", v.S)))
+		return one(T(SRVal, app("rvElem", v.S)), sig.Results().At(0).Type())
+	case "(reflect.Value).Kind":
+		v := x.term(args[0], sig.Recv().Type(), site)
+		return one(T(SInt, app("rvKind", v.S)), sig.Results().At(0).Type())
+	case "(reflect.Value).IsValid":
+		v := x.term(args[0], sig.Recv().Type(), site)
+		return one(T(SBool, app("rvValid", v.S)), sig.Results().At(0).Type())
+	case "(reflect.Value).Convert":
+		v := x.term(args[0], sig.Recv().Type(), site)
+		t := x.term(args[1], sig.Params().At(0).Type(), site)
+		x.safety(fr, "reflect-convert", "reflect.Value.Convert on the zero Value panics", pos, bc, T(SBool, app("rvValid", v.S)))
+		return one(T(SRVal, app("rvConvert", v.S, t.S)), sig.Results().At(0).Type())
+	case "(reflect.Value).Interface":
+		v := x.term(args[0], sig.Recv().Type(), site)
+		x.safety(fr, "reflect-interface", "reflect.Value.Interface on the zero Value panics", pos, bc, T(SBool, app("rvValid", v.S)))
+		return one(T(SVal, app("rvIface", v.S)), sig.Results().At(0).Type())
 	}
 	// unknown external: results havoced; assumed not to write stackage state
 	x.havoc(site + ": external " + key + " (results havoced, assumed not to write package state)")
